@@ -161,8 +161,21 @@ class SamplingInvariant:
         self.S, self.cards, self.cons, self.sizes, self.N = S, cards, cons, sizes, N
         self.post = None
 
+    def roles(self, env):
+        """the loop state by role, not by name (renaming a local must not matter): the sorted index list, the per-contest
+        counters, the selection (a parameter, so its name is part of the signature) and the integer position"""
+        from pyvc.interp import DDict
+        vs = env.vars
+        srt = [k for k, v in vs.items() if isinstance(v, SymArr) and getattr(v, "sorted_perm", None) is not None]
+        cnt = [k for k, v in vs.items() if isinstance(v, (DDict, dict)) and k != "contests"]
+        pos = [k for k, v in vs.items() if isinstance(v, (int, SInt)) and not isinstance(v, bool)]
+        if len(srt) != 1 or len(cnt) != 1 or len(pos) != 1 or "sampled_cvr_indices" not in vs:
+            raise NotApplicable("loop state of consistent_sampling not recognised (sorted list / counters / position)")
+        self.n_sorted, self.n_sizes, self.n_pos, self.n_sel = srt[0], cnt[0], pos[0], "sampled_cvr_indices"
+
     def setup(self, env):
-        sci = env.vars["sorted_cvr_indices"]
+        self.roles(env)
+        sci = env.vars[self.n_sorted]
         self.sigma = lambda j: sci.at(j)
         sp = getattr(sci, "sorted_perm", None)
         self.S.holds("the cards are visited in the order sorted(...) by increasing sample number gives", sp is not None and not sp.keyvals[2])
@@ -192,7 +205,7 @@ class SamplingInvariant:
 
     def state_ok(self, env, inx, wit):
         out = []
-        cs = env.vars["current_sizes"]
+        cs = env.vars[self.n_sizes]
         for c in CONTESTS:
             cur = cs[c] if c in cs else 0
             cn = self.cnt[c].at(inx)
@@ -205,7 +218,7 @@ class SamplingInvariant:
                         bimp(icmp(">=", cur, 1), band(icmp(">=", w, 0), icmp("<", w, inx), self.has[c](w),
                                                       icmp("==", self.cnt[c].at(w), isub(cur, 1)),
                                                       bterm_eq(thr, sn)))))
-        L = env.vars["sampled_cvr_indices"].length if isinstance(env.vars["sampled_cvr_indices"], SymArr) else len(env.vars["sampled_cvr_indices"])
+        L = env.vars[self.n_sel].length if isinstance(env.vars[self.n_sel], SymArr) else len(env.vars[self.n_sel])
         out.append(("selected so far: between 0 and inx cards", band(icmp(">=", L, 0), icmp("<=", L, inx))))
         out.append(("number selected = number of taken positions before inx", icmp("==", L, self.T.at(inx))))
         out.append(("position within the list", band(icmp(">=", inx, 0), icmp("<=", inx, self.N))))
@@ -222,7 +235,7 @@ class SamplingInvariant:
         mode = c.decide(z3.Bool(c.fresh("sampling_branch_preserve")))
         inx = z3.Int(c.fresh("inx"))
         # havoc the loop state
-        cs = env.vars["current_sizes"]
+        cs = env.vars[self.n_sizes]
         wit = {}
         for cid in CONTESTS:
             cs[cid] = SInt(z3.Int(c.fresh(f"cur_{cid}")))
@@ -232,8 +245,8 @@ class SamplingInvariant:
         SEL = z3.Function(c.fresh("SEL"), z3.IntSort(), z3.IntSort())
         sel = SymArr(L0, lambda p: SInt(SEL(zi(p))), "int")
         sel.is_list = True
-        env.vars["sampled_cvr_indices"] = sel
-        env.vars["inx"] = SInt(inx)
+        env.vars[self.n_sel] = sel
+        env.vars[self.n_pos] = SInt(inx)
         POSf = z3.Function(c.fresh("POS"), z3.IntSort(), z3.IntSort())
         POS = lambda p: POSf(zi(p))
         if mode:
@@ -244,7 +257,7 @@ class SamplingInvariant:
                 raise CutPath()          # the exit case is handled by the other branch
             before = {cid: cs[cid] for cid in CONTESTS}
             I.exec_block(st.body, env, in_class)
-            sel2 = env.vars["sampled_cvr_indices"]
+            sel2 = env.vars[self.n_sel]
             take = bor(*[band(self.has[cid](inx), icmp("<", self.cnt[cid].at(inx), self.sizes[cid])) for cid in CONTESTS])
             S.holds("card sigma(inx) is appended exactly when it lists a contest whose first n_c cards are not complete",
                     band(icmp("==", sel2.length, iadd(L0, iite(take, 1, 0))),
@@ -259,7 +272,7 @@ class SamplingInvariant:
             for cid in CONTESTS:
                 counted = band(self.has[cid](inx), icmp("<", self.cnt[cid].at(inx), self.sizes[cid]))
                 wit2[cid] = z3.If(zb(counted), inx, wit[cid])
-            S.holds("position advances by one", icmp("==", env.vars["inx"], inx + 1))
+            S.holds("position advances by one", icmp("==", env.vars[self.n_pos], inx + 1))
             for nm, g in self.state_ok(env, inx + 1, wit2):
                 S.holds("sampling.inv.preserved: " + nm, g)
             raise CutPath()
@@ -296,9 +309,9 @@ def consistent_sampling_unbounded(S, I, variant):
         sizes[cid] = S.integer(f"size_{cid}", lo=0)
         cons[cid] = mk_contest(I, id=cid, sample_size=sizes[cid], cards=10, candidates=["x"], winner=["x"])
     inv = SamplingInvariant(S, cards, cons, sizes, iterm(N))
-    I.invariants[("CVR.consistent_sampling", 2)] = inv
+    I.invariants[("CVR.consistent_sampling", "while", 0)] = inv
     # the final flag-setting loop is abstracted away here (it is covered by the structure-bounded scripts): stop after the while
-    I.invariants[("CVR.consistent_sampling", 4)] = StopHere(inv)
+    I.invariants[("CVR.consistent_sampling", "for", -1)] = StopHere(inv)
     fn = I.get(MOD, "CVR.consistent_sampling")
     from pyvc.interp import CutPath
     S.native_desc = None
@@ -352,6 +365,46 @@ def _as_list(I, v):
     raise NotApplicable("the phantom list is not built by appending to an empty list")
 
 
+def _appended_list(st):
+    """name of the list the loop body appends to (role detection by shape, not by name)"""
+    import ast
+    names = {b.value.func.value.id for b in st.body
+             if isinstance(b, ast.Expr) and isinstance(b.value, ast.Call) and isinstance(b.value.func, ast.Attribute)
+             and b.value.func.attr == "append" and isinstance(b.value.func.value, ast.Name)}
+    if len(names) != 1:
+        raise NotApplicable("loop body does not append to exactly one list")
+    return names.pop()
+
+
+def _indexed_list(st):
+    """name of the list indexed by the loop variable in the assignment targets of the body"""
+    import ast
+    names = set()
+    for b in st.body:
+        for t in (b.targets if isinstance(b, ast.Assign) else []):
+            for n in ast.walk(t):
+                if isinstance(n, ast.Subscript) and isinstance(n.value, ast.Name) and isinstance(n.slice, ast.Name) \
+                        and isinstance(st.target, ast.Name) and n.slice.id == st.target.id:
+                    names.add(n.value.id)
+    if len(names) != 1:
+        raise NotApplicable("loop body does not update the records of exactly one list by position")
+    return names.pop()
+
+
+def _enclosing_contest(I, st, env, cons):
+    """the contest object of the enclosing `for ..., con in contests.items()` iteration"""
+    import ast
+    fn = I.fn_stack[-1]
+    for n in ast.walk(fn.node):
+        if isinstance(n, ast.For) and any(st is x for x in ast.walk(n)) and n is not st:
+            for t in ast.walk(n.target):
+                if isinstance(t, ast.Name):
+                    v = env.lookup(t.id)
+                    if any(v is cc for cc in cons.values()):
+                        return v
+    raise NotApplicable("enclosing loop over the contests not recognised")
+
+
 def _simple_append_body(st, listname):
     """the loop body only binds temporaries and appends to `listname` (so that it can be summarised element by element)"""
     import ast
@@ -375,12 +428,13 @@ class AppendSummary:
 
     def summarise(self, I, st, env, in_class):
         from pyvc.interp import Env
-        S, c, X = self.S, ctx(), self.listname
+        S, c = self.S, ctx()
+        X = _appended_list(st)
         if not _simple_append_body(st, X):
             raise NotApplicable("loop body is not an append-only body")
         old = _as_list(I, env.lookup(X))
         oldlen = old.length
-        Lf = self.final_len(env, oldlen)
+        Lf = self.final_len(I, st, env, oldlen)
 
         def run_body_at(q, extra_vars):
             holder = {}
@@ -453,21 +507,22 @@ class ListContestSummary:
     that record is checked (lists the contest; every other field and every other contest's presence unchanged); the summary
     gives record q the contest exactly when 0 <= q < K or it had it before."""
 
-    def __init__(self, S, listname, spec_K):
-        self.S, self.listname, self.spec_K = S, listname, spec_K
+    def __init__(self, S, cons, spec_K):
+        self.S, self.cons, self.spec_K = S, cons, spec_K
 
     def run_for(self, I, st, env, in_class):
         import ast
         from pyvc.interp import Env
-        S, c, X = self.S, ctx(), self.listname
+        S, c = self.S, ctx()
         if not (isinstance(st.iter, ast.Call) and getattr(st.iter.func, "id", None) == "range" and len(st.iter.args) == 1
                 and isinstance(st.target, ast.Name)):
             raise NotApplicable("loop is not `for i in range(K)`")
+        X = _indexed_list(st)
         lst = _as_list(I, env.lookup(X))
-        con = env.lookup("con")
+        con = _enclosing_contest(I, st, env, self.cons)
         cid = con.attrs["id"]
         K = I.eval(st.iter.args[0], env)
-        S.holds(f"[{cid}] the contest is listed on the first (cards - cvrs) phantoms", icmp("==", K, self.spec_K(env)))
+        S.holds(f"[{cid}] the contest is listed on the first (cards - cvrs) phantoms", icmp("==", K, self.spec_K(cid)))
         S.holds(f"[{cid}] enough phantoms exist", icmp("<=", K, lst.length))
         if c.decide(icmp(">", K, 0)):
             i0 = z3.Int(c.fresh("i0"))
@@ -542,10 +597,10 @@ def make_phantoms_unbounded(S, I, variant):
     else:
         c.assume(icmp(">=", max_cards, N))
     imax = lambda a, b: iite(icmp(">=", a, b), iterm(a), iterm(b))
-    I.invariants[("CVR.make_phantoms", 1)] = AppendSummary(S, "phantom_vrs", lambda env, oldlen: iadd(oldlen, isub(max_cards, N)), "for")
-    I.invariants[("CVR.make_phantoms", 3)] = AppendSummary(
-        S, "phantom_vrs", lambda env, oldlen: imax(oldlen, needed(env.lookup("con").attrs["id"])), "while")
-    I.invariants[("CVR.make_phantoms", 4)] = ListContestSummary(S, "phantom_vrs", lambda env: needed(env.lookup("con").attrs["id"]))
+    I.invariants[("CVR.make_phantoms", "for", 1)] = AppendSummary(S, None, lambda I_, st, env, oldlen: iadd(oldlen, isub(max_cards, N)), "for")
+    I.invariants[("CVR.make_phantoms", "while", 0)] = AppendSummary(
+        S, None, lambda I_, st, env, oldlen: imax(oldlen, needed(_enclosing_contest(I_, st, env, cons).attrs["id"])), "while")
+    I.invariants[("CVR.make_phantoms", "for", 3)] = ListContestSummary(S, cons, needed)
     fn = I.get(MOD, "CVR.make_phantoms")
     r, exc = guard(S, I, lambda: I.call(fn, [], {"audit": audit, "contests": cons, "cvr_list": cards, "prefix": "ph-"}))
     if exc:
